@@ -134,4 +134,4 @@ def describe_alt(alt):
         if not t:
             op = {"==": "!=", "<": ">=", "in": "not in", "is": "is not"}[op]
         return "%s %s %s" % (k[1], op, k[2])
-    return " and ".join(sorted(one(k, t) for (k, t) in alt)) or "no condition at all"
+    return " and ".join(sorted(one(k, t) for (k, t) in alt if k[0] != "flagdef")) or "no condition at all"
